@@ -125,7 +125,7 @@ func hessianConcurrent(dst *mat.SymDense, nWorkers, evals int, f func(x []float6
 
 	var originWG sync.WaitGroup
 	hasOrigin := usesOrigin(stencil)
-	if hasOrigin {
+	if hasOrigin && !originKnown {
 		originWG.Add(1)
 		// Launch worker to compute the origin.
 		go func() {
